@@ -7,6 +7,7 @@ mod ops_gen;
 mod rng;
 mod val;
 mod hist;
+mod oracle;
 
 use std::io::{BufRead, Write};
 use val::*;
@@ -18,6 +19,7 @@ fn sig_of(name: &str) -> Option<(&'static str, &'static str)> {
 pub fn run_line(line: &str) -> String {
     let mut it = line.split_whitespace();
     let name = match it.next() { Some(n) => n, None => return "bad-op".into() };
+    if name.starts_with("oracle.") { return oracle::run_line(line); }
     let (sig, _ret) = match sig_of(name) { Some(s) => s, None => return "bad-op".into() };
     let toks: Vec<&str> = it.collect();
     if toks.len() != sig.len() { return "bad-op".into(); }
@@ -73,6 +75,21 @@ fn main() {
                 for l in hist::gen_history(&mut r, &names) { writeln!(out, "{}", l).unwrap(); }
             }
         }
+        "gen-oracle" => {
+            let seed: u64 = arg(&args, "--seed").and_then(|s| s.parse().ok()).unwrap_or(1);
+            let count: usize = arg(&args, "--count").and_then(|s| s.parse().ok()).unwrap_or(1000);
+            let prop = arg(&args, "--prop").unwrap_or("");
+            let cl: Vec<oracle::Clause> = oracle::clauses().into_iter().filter(|c| c.prop == prop).collect();
+            let mut r = rng::Rng::new(seed ^ 0x5bd1e995);
+            let per = (count + cl.len().max(1) - 1) / cl.len().max(1);
+            for c in &cl {
+                for _ in 0..per {
+                    let a = (c.gen)(&mut r);
+                    writeln!(out, "{}", line(&format!("oracle.{}.{}", c.prop, c.name), &a)).unwrap();
+                }
+            }
+        }
+        "list-oracle" => { for c in oracle::clauses() { writeln!(out, "{} {} {}", c.prop, c.name, c.sig).unwrap(); } }
         _ => { eprintln!("usage: gharness list|gen|run"); std::process::exit(2); }
     }
 }
